@@ -73,12 +73,14 @@ def render(rng, model, fancy=True):
     L = []
     for _ in range(rng.choice([0, 0, 1, 2]) if fancy else 0):
         L.append(rng.choice([comment_line(rng), "", "  ", "\t"]))
+    lws = lambda: rng.choice(["", "", "", " ", "\t", "  ", "\t \t", "\x0c", " \r"]) if fancy else ""      # Spec/Layout.v LineWs: SP TAB FF CR
     for sec, es in model:
-        L.append("[%s]" % sec)
+        # a header may be indented and followed by white space; junk lines (blank / comment) may be indented too (JunkLine, SCons)
+        L.append(lws() + "[%s]" % sec + lws())
         for k, v in es:
             if fancy:
                 for _ in range(rng.choice([0, 0, 0, 1, 2])):
-                    L.append(rng.choice([comment_line(rng), "", " ", "\t \t"]))
+                    L.append(rng.choice([lws() + comment_line(rng), comment_line(rng), "", " ", "\t \t"]))
             ind = rng.choice(["", "", " ", "\t", "  "]) if fancy else ""
             pre = rng.choice(["", "", " ", "\t", "  "]) if fancy else ""
             post = rng.choice(["", "", " ", "\t ", "  "]) if fancy else ""
